@@ -127,16 +127,30 @@ def _pmapped_attrs(ctx):
     return names
 
 
+def _pmapped_locals(fn):
+    """local names bound to jax.pmap(...) inside one function (a pmapped callable built where it is used)"""
+    out = set()
+    for s in ast.walk(fn):
+        if isinstance(s, ast.Assign) and isinstance(s.value, ast.Call) and ast.unparse(s.value.func) in ("jax.pmap", "pmap"):
+            for t in s.targets:
+                if isinstance(t, ast.Name):
+                    out.add(t.id)
+    return out
+
+
 def _taint(ctx, col):
     names = _pmapped_attrs(ctx)
-    if len(names) < 4:
-        raise AnalysisError(f"anchor vanished: only {len(names)} pmapped attributes found")
+    n_local = sum(len(_pmapped_locals(fn)) for ci in ctx.ct.by_qual.values() for fn in ci.methods.values())
+    if len(names) + n_local < 4:
+        raise AnalysisError(f"anchor vanished: only {len(names) + n_local} pmapped callables found")
     sites = 0
     for ci in sorted(ctx.ct.by_qual.values(), key=lambda c: c.qualname):
         for fn in ci.methods.values():
             parents = None
+            local_pmaps = _pmapped_locals(fn)
             for c in calls_in(fn):
-                if isinstance(c.func, ast.Attribute) and is_self_attr(c.func) and c.func.attr in names:
+                if (isinstance(c.func, ast.Attribute) and is_self_attr(c.func) and c.func.attr in names) \
+                        or (isinstance(c.func, ast.Name) and c.func.id in local_pmaps):
                     sites += 1
                     parents = parents or parents_of(fn)
                     p = parents.get(id(c))
@@ -158,7 +172,7 @@ def _taint(ctx, col):
                                f"`{v}` holds a padded per-device pmap result and is used at line {(bad[0].lineno if bad else p.lineno)} without un-batching")
                     else:
                         why = f"pmap result flows into `{norm_text(p)[:80]}` without un-batching"
-                    col.add("R3.2", construct, ci.module.relpath, c.lineno, ok, why, text=f"pmap result of self.{c.func.attr}")
+                    col.add("R3.2", construct, ci.module.relpath, c.lineno, ok, why, text=f"pmap result of self.{c.func.attr if isinstance(c.func, ast.Attribute) else c.func.id.lstrip('_')}")
     if sites < 5:
         raise AnalysisError(f"count floor missed: {sites} pmap call sites (5 confirmed by hand)")
 
